@@ -106,7 +106,7 @@ def cases(tier, seed, prop):
         for i, s in enumerate(sk):
             for ci in ((i % 2,) if tier == 'quick' else (0, 1, 2, 3)):
                 out.append({'seq': s, 'c': C01_CFGS[ci], 'g': 'skeleton'})
-        n = 3000 if tier == 'quick' else 40000
+        n = 8000 if tier == 'quick' else 40000
         for _ in range(n):
             out.append({'seq': mk.gen_seq(rnd, opt, [rnd.randint(1, 10)], 3), 'c': rnd.choice(C01_CFGS), 'g': 'random'})
         oi = dict(opt, names=['div', 'p', 'ul', 'li', 'span', 'em', 'br', 'hr', 'wbr', 'section', 'x', 'table', 'tr', 'td'], p_noname=.1, p_void_child=.25, p_attr=0, p_text=0, p_id=.1, p_class=.2, p_rep=.2)
@@ -153,7 +153,7 @@ def cases(tier, seed, prop):
                 out.append({'s': '(p.a$>b.c$@3{$#})*2', 'c': {'text': text, 'options': o_}, 'expect': exp2, 'g': 'wrapnum'})
                 exp3 = ''.join('<ol class=%so%02d%s>' % (q, i, q) + ''.join('<li class=%sn%d%s>%s %d</li>' % (q, 3 - j, q, text, j) for j in (1, 2)) + '</ol>' for i in (1, 2))
                 out.append({'s': 'ol.o$$*2>li.n$@-*2{$# $}', 'c': {'text': text, 'options': o_}, 'expect': exp3, 'g': 'wrapnum'})
-        n = 3000 if tier == 'quick' else 40000
+        n = 8000 if tier == 'quick' else 40000
         for _ in range(n):
             out.append({'seq': mk.gen_seq(rnd, opt, [rnd.randint(1, 8)], 3), 'c': rnd.choice(C02_CFGS), 'g': 'random'})
         # repeated user snippets whose definitions nest: N copies of the alias are N copies of its definition, each with its own descendants
@@ -168,7 +168,7 @@ def cases(tier, seed, prop):
                         ('xsl:param[name=n select="a b"]>xsl:variable[name=m select=y]{v}', '<xsl:param name="n" select="a b"><xsl:variable name="m">v</xsl:variable></xsl:param>'),
                         ('xsl:template[match=x select=y]>b', '<xsl:template match="x" select="y"><b></b></xsl:template>'), ('xsl:sort[select=k order=d]', '<xsl:sort select="k" order="d"></xsl:sort>')]:
             out.append({'s': ab, 'c': {'syntax': 'xsl', 'options': {'output.format': False}}, 'expect': exp, 'g': 'xsl-select'})
-        n = 4000 if tier == 'quick' else 50000
+        n = 10000 if tier == 'quick' else 50000
         for _ in range(n):
             c = rnd.choice(C03_CFGS)
             # a user snippet with several top-level elements: what is written on the alias belongs to each of them
@@ -179,7 +179,7 @@ def cases(tier, seed, prop):
             if rnd.random() < .12: case['pre'] = rnd.choice(['c>', 'cc:ie>', '{x ${0} y}>', '{${0}}>', 'c>c>']); case['g'] = 'under-text'
             out.append(case)
     elif prop == 'C04':
-        n = 3000 if tier == 'quick' else 40000
+        n = 8000 if tier == 'quick' else 40000
         # exhaustive short payloads over the punctuation alphabet (well-formed ones only) at two positions
         alpha = [ch for ch in gens.ABBR_ALPHA if ch not in '$'] + ['\\$', '\\{', '\\}', '\\\\']
         import itertools
@@ -220,7 +220,7 @@ def cases(tier, seed, prop):
             c['s'] = TEXT_TPL[c['tpl']] % c['w'] if 'w' in c else WRAP_TPL[c['wrap']][0]
         return out
     elif prop == 'C13':
-        n = 3000 if tier == 'quick' else 40000
+        n = 8000 if tier == 'quick' else 40000
         o13 = dict(base_opt('C04'), names=['div', 'p', 'span', 'ul', 'li', 'em', 'b', 'hr', 'br', 'strong', 'section', 'x', 'table', 'tr', 'td'], p_attr=.5, p_text=.4,
                    attr_pool=[('attr', 'title', None, None), ('attr', 'lang', None, None), ('attr', 'data-x', 'y', 'raw'), ('attr', 'title', '${1}', 'dq'), ('attr', 'alt', '${2:ph} ${1}', 'dq'),
                               ('attr', 'rel', 'a${3}b', 'dq'), ('attr', 'class', 'a${1} b${1}', 'dq'), ('attr', 'class', '${2:x} ${1:y}', 'dq'), ('attr', 'id', 'i${1}${2}', 'raw'), ('attr', 'href', '', 'dq'), ('attr', 'alt', '${caption}', 'dq'), ('attr', 'title', '${foo}', 'raw')],
@@ -270,7 +270,7 @@ def cases(tier, seed, prop):
         out = cases_C14(tier, rnd)
         return out
     elif prop in ('C12', 'C15'):
-        n = 3000 if tier == 'quick' else 40000
+        n = 8000 if tier == 'quick' else 40000
         names = ['div', 'p', 'span', 'ul', 'li', 'em', 'b', 'hr', 'br', 'strong', 'section', 'x', 'table', 'tr', 'td', 'article', 'body', 'i', 'h1', 'nav']
         if prop == 'C15': names = names + ['samp', 'kbd', 'var', 'code', 'q', 's', 'tt', 'sub', 'sup', 'cite', 'dfn', 'u', 'small', 'big', 'del', 'ins', 'strike']
         o12 = dict(base_opt('C04'), names=names, p_attr=.3, p_text=.35, p_noname=.1, p_void_child=.25,
@@ -881,7 +881,7 @@ def cases_C14(tier, rnd):
         out.append({'s': k, 'alt': alt, 'c': {'snippets': dict(withtext)}, 'g': 'alias-text'})
     # user tables, including self-referencing and mutually recursive ones: resolution must end
     names = ['s1', 's2', 's3', 's4', 's5', 'x', 'y']
-    n = 300 if tier == 'quick' else 3000
+    n = 1000 if tier == 'quick' else 3000
     for _ in range(n):
         tbl = {}
         for k in rnd.sample(names, rnd.randint(1, 5)):
